@@ -396,8 +396,6 @@ Proof.
   assert (E40 : forall m b, prefixb (lit "40 ") (fst (serialize (err_resp 40 m)) ++ b) && true = true).
   { intros m b. rewrite prefixb_app_r; [reflexivity|apply err40_prefix]. }
   destruct v as [r|m|[|] [t|]|]; cbn [verdict_resp]; try apply E40.
-  - exfalso. eapply NA; reflexivity.
-  - exfalso. eapply NA; reflexivity.
   - destruct (Spec.C04.wellformed_line t && all_ascii t) eqn:WF.
     + apply andb_true_iff in WF as [W1 W2]. rewrite (rejection_verbatim t W1 W2). cbn [fst snd].
       rewrite app_nil_r, eqb_refl. reflexivity.
